@@ -356,3 +356,48 @@ def serve (cfg : Cfg) : Nat → World → State → Bytes → Bytes → Nat → 
       else serve cfg fuel w' st' rest (acc ++ out.bytes) used'
 
 end Ps3.Conn
+
+namespace Ps3.Conn
+open Ps3 Ps3.Proto Ps3.PathStr
+
+/-! ### the handle ledger (State.{CwdHandle,ROFile,WOFile}, State.Close) -/
+
+/-- number of handles the connection state owns -/
+def handles (st : State) : Nat := st.cwd.isSome.toNat + st.ro.isSome.toNat + st.wo.isSome.toNat
+
+/-- State.Close: every slot is closed and cleared (deferred on every exit path of serveConn) -/
+def State.close (_ : State) : State := {}
+
+/-- (opened, closed): the handles a handler opens into / closes out of the three slots for one
+    request, following the replace-then-close logic of HandleOpenDir / HandleReadDirEntry /
+    HandleOpenFile / HandleCloseFile / HandleCreateFile. Handles that live only inside one handler
+    call (key files, PARAM.SFO, directories walked for a size) are closed by `defer` there. -/
+def ledgerEv (cfg : Cfg) (w : World) (st : State) (r : Req) : Nat × Nat :=
+  let had (b : Bool) : Nat := b.toNat
+  match r with
+  | .openDir raw =>
+    match openRO cfg w (PathStr.cleanRequest raw) with
+    | none => (0, 0)
+    | some (.dir _) => (1, had st.cwd.isSome)
+    | some _ => (1, 1 + had st.cwd.isSome)      -- opened, found not to be a directory, closed again
+  | .readDirEntry | .readDirEntryV2 =>
+    match st.cwd with
+    | none => (0, 0)
+    | some h =>
+      match nextEntry w h.named (h.remaining.getD (dirNames w h.real)) with
+      | none => (0, 1)                           -- end of directory: the handle is closed
+      | some _ => (0, 0)
+  | .openFile raw =>
+    let p := PathStr.cleanRequest raw
+    if p.getLast? == some closeFileName then (0, had st.ro.isSome)
+    else match openRO cfg w p with
+      | none => (0, had st.ro.isSome)
+      | some _ => (1, had st.ro.isSome)
+  | .createFile raw =>
+    let p := PathStr.cleanRequest raw
+    if !cfg.allowWrite then (0, 0) else
+    let closedOld := had st.wo.isSome
+    if (step cfg w st (.createFile raw)).2.1.wo.isSome then (1, closedOld) else (0, closedOld)
+  | _ => (0, 0)
+
+end Ps3.Conn
